@@ -87,7 +87,8 @@ func main() {
 			continue
 		}
 		for i, f := range p.Syntax {
-			name := p.Fset.Position(f.Pos()).Filename; _ = i
+			name := p.Fset.Position(f.Pos()).Filename
+			_ = i
 			if strings.HasSuffix(name, "_test.go") {
 				continue
 			}
